@@ -114,11 +114,11 @@ theorem poll_spec (s : St) (hw : WF s) :
       exact ⟨_, rfl, by rw [hfut]; exact h1, h2⟩
     | multi subs pending uninit consume =>
       simp only at hfut ⊢
-      obtain ⟨hu, htc, hF, hacc⟩ := hfut
+      obtain ⟨hu, htc, hF, hacc, hpos⟩ := hfut
       subst hu
       unfold pollMulti
       simp only [Bool.false_eq_true, if_false]
-      obtain ⟨a, b, c', d⟩ := loopPoll_spec subs consume 2 s pending hc htc hF hacc
+      obtain ⟨a, b, c', d⟩ := loopPoll_spec subs consume 2 s pending hc htc hF hacc hpos
       refine ⟨a, b, c', ?_⟩
       intro vals hv
       obtain ⟨h1, h2⟩ := d vals hv
@@ -155,9 +155,9 @@ theorem wf_of_same {s s' : St} (h : WF s) (hc : Core s') (hf : s'.fut = s.fut) (
     | direct c k => simp only at this ⊢; rw [hs, hb]; exact this
     | multi subs pending uninit k =>
       simp only at this ⊢
-      obtain ⟨a, b, c, d⟩ := this
+      obtain ⟨a, b, c, d, e⟩ := this
       exact ⟨a, htc.trans b, ⟨ho ▸ c.len, ho ▸ c.cnt, by intro i v hi hv; rw [ho] at hv; rw [hg]; exact c.src i v hi hv⟩,
-        by rw [hs, hb]; exact d⟩
+        by rw [hs, hb]; exact d, e⟩
 
 theorem modSlot_core (s : St) (c : Nat) (f : Slot → Slot) (hc : Core s)
     (hr : ∀ sl, (f sl).reply = sl.reply ∨ (f sl).reply = none) : Core (modSlot s c f) := by
